@@ -21,6 +21,9 @@ type writeTarget struct {
 	fi      *FuncInfo
 	unknown bool
 	why     string
+	mapType *types.Map // store into a map: the value, presence and length heaps of that map type
+	sort    Sort       // sort of the heap (so that it can be registered if the loop is its first user)
+	whole   bool       // havoc the whole heap (a store through a pointer that may point into a slice)
 }
 
 type loopEffects struct {
@@ -34,6 +37,16 @@ func (x *Exec) collectEffects(nodes ...ast.Node) loopEffects {
 	unknown := func(why string) {
 		eff.any = true
 		eff.targets = append(eff.targets, writeTarget{unknown: true, why: why})
+	}
+	// a store through a pointer: the pointer heap cell, and - because the
+	// pointer may be an interior pointer &a[i] - the whole element heap of
+	// slices of that type
+	ptrStore := func(ty *Ty, pe ast.Expr) {
+		es := x.w.sortOf(ty.Elem, x.model)
+		hn, hs := ptrHeap(es)
+		eff.targets = append(eff.targets, writeTarget{heap: hn, expr: pe, sort: hs})
+		en, ehs := elemHeap(es)
+		eff.targets = append(eff.targets, writeTarget{heap: en, sort: ehs, whole: true})
 	}
 	var store func(e ast.Expr)
 	store = func(e ast.Expr) {
@@ -53,7 +66,15 @@ func (x *Exec) collectEffects(nodes ...ast.Node) loopEffects {
 				hn, _ := elemHeap(x.w.sortOf(ty.Elem, x.model))
 				eff.targets = append(eff.targets, writeTarget{heap: hn, expr: t.X})
 			case TOpaque:
-				eff.targets = append(eff.targets, writeTarget{heap: x.mapHeapName(ty), expr: t.X})
+				mt, isMap := ty.Go.Underlying().(*types.Map)
+				if !isMap {
+					unknown("index store into a non-map opaque value")
+					return
+				}
+				tag := sanitize(mt.String())
+				for _, pre := range []string{"MV_", "MP_", "ML_"} {
+					eff.targets = append(eff.targets, writeTarget{heap: pre + tag, expr: t.X, mapType: mt})
+				}
 			default:
 				unknown("index store into unsupported base")
 			}
@@ -66,8 +87,7 @@ func (x *Exec) collectEffects(nodes ...ast.Node) loopEffects {
 			ty := x.w.goTy(tv.Type, x.model.BV)
 			if ty.K == TPtr {
 				eff.any = true
-				hn, _ := ptrHeap(x.w.sortOf(ty.Elem, x.model))
-				eff.targets = append(eff.targets, writeTarget{heap: hn, expr: t.X})
+				ptrStore(ty, t.X)
 				return
 			}
 			store(t.X) // field of a struct-valued lvalue
@@ -76,8 +96,7 @@ func (x *Exec) collectEffects(nodes ...ast.Node) loopEffects {
 			tv := info.Types[t.X]
 			ty := x.w.goTy(tv.Type, x.model.BV)
 			if ty.K == TPtr {
-				hn, _ := ptrHeap(x.w.sortOf(ty.Elem, x.model))
-				eff.targets = append(eff.targets, writeTarget{heap: hn, expr: t.X})
+				ptrStore(ty, t.X)
 				return
 			}
 			unknown("store through non-pointer")
@@ -260,6 +279,16 @@ func (x *Exec) havocLoop0(st *State, lc *LoopContract, ord int, pos token.Pos, n
 	fieldAsg := x.fieldAsg
 	pre := st.clone()
 	eff := x.collectEffects(nodes...)
+	for _, t := range eff.targets {
+		// heaps this loop may be the first to touch
+		if t.sort != "" {
+			x.heap(st, t.heap, t.sort)
+		}
+		if t.mapType != nil {
+			x.mapHeaps(st, t.mapType)
+			x.mapLenHeap(st, t.mapType)
+		}
+	}
 	// new allocation counter
 	if eff.any {
 		na := x.sym.Fresh("alloc", SInt)
@@ -348,6 +377,19 @@ func (x *Exec) havocLoop0(st *State, lc *LoopContract, ord int, pos token.Pos, n
 	allUnknown := false
 	nob := len(x.obls)
 	for _, t := range eff.targets {
+		if t.sort != "" {
+			x.heap(st, t.heap, t.sort)
+		}
+		if t.whole {
+			fullHavoc[t.heap] = true
+			continue
+		}
+		if t.mapType != nil {
+			// make sure the three heaps exist (they may be touched first
+			// inside the loop)
+			x.mapHeaps(st, t.mapType)
+			x.mapLenHeap(st, t.mapType)
+		}
 		if t.unknown {
 			allUnknown = true
 			x.notes = append(x.notes, "loop "+x.cur().key+": heap fully havocked ("+t.why+")")
@@ -401,7 +443,7 @@ func (x *Exec) havocLoop0(st *State, lc *LoopContract, ord int, pos token.Pos, n
 	for hn := range fullHavoc {
 		hs, ok := x.heapSorts[hn]
 		if !ok {
-			continue
+			panic(engineError{"loop effect on heap " + hn + " that has not been registered (engine limitation)"})
 		}
 		x.heap(st, hn, hs)
 		st.heaps[hn] = x.sym.Fresh(hn, hs)
@@ -417,7 +459,9 @@ func (x *Exec) havocLoop0(st *State, lc *LoopContract, ord int, pos token.Pos, n
 func (x *Exec) havocCell(st *State, hn string, key *Term) {
 	hs, ok := x.heapSorts[hn]
 	if !ok {
-		return
+		// never silently skip a havoc: a heap that is first touched inside
+		// the loop must have been registered by evaluating the target
+		panic(engineError{"loop effect on heap " + hn + " that has not been registered (engine limitation)"})
 	}
 	h := x.heap(st, hn, hs)
 	cell := x.sym.Fresh("cell_"+hn, elemSortOfArray(hs))
